@@ -19,17 +19,23 @@ Ltac go_eq :=
   repeat (f_equal; try lia; try reflexivity).
 
 Ltac go_res :=
-  autounfold with go_defs; cbv zeta; unfold ed_ref, ref_start, ref_end;
+  autounfold with go_defs; cbv zeta; unfold ed_ref, ref_parent, ref_start, ref_end, is_sub_editor;
   repeat (match goal with
-          | |- context [match e_ref ?x with _ => _ end] => destruct (e_ref x) as [[[? ?] ?]|]; cbn [bind fst snd]
+          | |- context [match e_ref ?x with _ => _ end] => destruct (e_ref x) as [[[? ?] ?]|]; cbn [bind fst snd negb]
+          | |- context [if ?c then _ else _] =>
+              lazymatch c with context [if _ then _ else _] => fail | _ => destruct c eqn:?; cbn [bind] end
           | |- context [bind ?r _] =>
-              match r with
+              lazymatch r with
               | Ok _ => cbn [bind]
               | Panic _ => cbn [bind]
+              | OutOfFuel => cbn [bind]
+              | context [if _ then _ else _] => fail
+              | context [match _ with _ => _ end] => fail
+              | context [bind _ _] => fail
               | _ => destruct r as [?| |]; cbn [bind]
               end
           end);
-  rewrite <- ?app_assoc; try reflexivity.
+  rewrite <- ?app_assoc; cbn [app]; try reflexivity; try discriminate.
 
 Lemma bind_ret {A} (r : Res A) : (do x <- r; Ok x) = r.
 Proof. destruct r; reflexivity. Qed.
